@@ -23,13 +23,13 @@ fn space_for(tier: Tier) -> (Space, usize) {
             s.ast("K", 3, 32).ast("Q", 2, 32);
             s.ast_range("K", 4, 4, 32, 2);
             s.ast_range("ALT", 1, 3, 16, 4).ast_range("LP", 1, 3, 16, 5).ast_range("FX", 1, 4, 16, 6);
-            s.ast_range("ALTS", 1, 4, 16, 4).ast_range("SEQO", 1, 5, 16, 4).ast_range("HI", 1, 3, 16, 4).ast_range("HIQ", 1, 4, 16, 3).ast_range("QN", 1, 4, 8, 11);
+            s.ast_range("ALTS", 1, 4, 16, 4).ast_range("SEQO", 1, 5, 16, 4).ast_range("HI", 1, 3, 16, 4).ast_range("HIQ", 1, 4, 16, 3).ast_range("QN", 1, 4, 8, 11).ast_range("ALTM", 1, 4, 16, 4);
             (s, 3)
         }
         Tier::Thorough => {
             s.ast("K", 4, 32).ast("Q", 3, 32).ast("CL", 3, 32);
             s.ast_range("ALT", 1, 4, 16, 3).ast_range("LP", 1, 4, 16, 5).ast_range("FX", 1, 4, 16, 6);
-            s.ast_range("ALTS", 1, 4, 16, 4).ast_range("SEQO", 1, 5, 16, 4).ast_range("HI", 1, 4, 16, 4).ast_range("HIQ", 1, 4, 16, 4).ast_range("QN", 1, 4, 8, 11);
+            s.ast_range("ALTS", 1, 4, 16, 4).ast_range("SEQO", 1, 5, 16, 4).ast_range("HI", 1, 4, 16, 4).ast_range("HIQ", 1, 4, 16, 4).ast_range("QN", 1, 4, 8, 11).ast_range("ALTM", 1, 4, 16, 4);
             s.ast_range("K", 5, 5, 128, 203).ast_range("CL", 4, 4, 64, 203).ast_range("KL", 1, 3, 8, 207);
             (s, 4)
         }
